@@ -745,8 +745,9 @@ impl Check for C20 {
                     );
                 }
             }
-            // K3: own keep-alives at every interval
-            if let Some(h) = st.hs_out {
+            // K3: own keep-alives at every interval (not judged on a connection whose peer stopped
+            // reading at some point: a frame cannot be delivered to a peer that does not read)
+            if let Some(h) = st.hs_out.filter(|_| v.reading_since(*c) == 0) {
                 let conn_end = client_close.unwrap_or(u64::MAX).min(life_end);
                 let mut prev = h;
                 for k in st.kas.iter().chain(std::iter::once(&conn_end)) {
@@ -767,6 +768,39 @@ impl Check for C20 {
                 }
                 if !st.kas.is_empty() {
                     vd.probe("client_keepalives_seen");
+                }
+            }
+        }
+        // the same without relying on the kill request having reached the manager: a minute after
+        // the client closed a connection that had been silent for the whole limit, the manager no
+        // longer lists that peer (unless the address has connected anew)
+        for (c, info) in &v.conns {
+            // (only for connections the peer opened: an address the client dialled itself may be
+            // dialled again at once, and the manager's entry would be the new attempt's)
+            if !info.incoming {
+                continue;
+            }
+            let tc = match info.client_close {
+                Some((_, t)) => t,
+                None => continue,
+            };
+            let st = match cs.get(c) {
+                Some(st) => st,
+                None => continue,
+            };
+            let last_real = st.real.iter().cloned().filter(|t| *t <= tc).max().unwrap_or(info.open_ms);
+            if tc.saturating_sub(last_real) < 359_000 || end < tc + 60_000 {
+                continue;
+            }
+            let renewed = v.conns.values().any(|o| o.addr == info.addr && o.conn != *c && o.open_ms >= tc.saturating_sub(1));
+            if renewed {
+                continue;
+            }
+            if let Some(e) = v.out.entries.iter().find(|e| e.t_ms >= tc + 60_000 && matches!(e.ev, Ev::Snapshot(_))) {
+                if let Ev::Snapshot(s) = &e.ev {
+                    if s.peers.iter().any(|p| p.addr == info.addr) {
+                        vd.fail("C20", "C20.peer-not-released", format!("{} was closed for inactivity at t={} ms and is still known to the manager a minute later", info.addr, tc), e.seq);
+                    }
                 }
             }
         }
